@@ -150,3 +150,12 @@ package types
 //@   ensures true
 //@ iface func (k StoreKey) String() (r string)
 //@   ensures true
+
+// observer for pruning options handed to a substore (C12): sp.calls counts the calls, sp.recent/sp.every hold
+// the options of the last one, sp.allsame says every call so far carried sp.want*
+//@ ghost sp.calls Int
+//@ ghost sp.recent Int
+//@ ghost sp.every Int
+//@ iface func (s CommitStore) SetPruning(opts PruningOptions)
+//@   modifies sp.calls, sp.recent, sp.every
+//@   ensures sp.calls == old(sp.calls) + 1 && sp.recent == opts.keepRecent && sp.every == opts.keepEvery
